@@ -57,7 +57,31 @@ unsafe impl CastFrom<M7> for dyn Obj {
     }
 }
 
-pub const NTY: u64 = 8;
+/// zero-sized implementors: no storage, so (serial, payload) live in statics (one instance per type is stored at a time);
+/// different alignments give them different (dangling) addresses
+macro_rules! zst_implementor {
+    ($name:ident, $tag:expr, $align:expr, $s:ident, $p:ident) => {
+        static $s: std::sync::atomic::AtomicU64 = std::sync::atomic::AtomicU64::new(0);
+        static $p: std::sync::atomic::AtomicU64 = std::sync::atomic::AtomicU64::new(0);
+        #[repr(align($align))]
+        pub struct $name;
+        impl $name { pub fn new(serial: u64, payload: u64) -> Self {
+            $s.store(serial, std::sync::atomic::Ordering::SeqCst); $p.store(payload, std::sync::atomic::Ordering::SeqCst); $name } }
+        impl Obj for $name {
+            fn tag(&self) -> u64 { $tag }
+            fn serial(&self) -> u64 { $s.load(std::sync::atomic::Ordering::SeqCst) }
+            fn val(&self) -> u64 { $p.load(std::sync::atomic::Ordering::SeqCst) }
+            fn bump(&mut self) { $p.fetch_add(1, std::sync::atomic::Ordering::SeqCst); }
+            fn addr(&self) -> usize { self as *const Self as *const () as usize }
+        }
+    };
+}
+zst_implementor!(M8, 8, 2, M8S, M8P);    // zero-sized, right cast
+zst_implementor!(M9, 9, 4, M9S, M9P);    // zero-sized, its cast moves the address
+unsafe impl CastFrom<M8> for dyn Obj { fn cast(t: *mut M8) -> *mut Self { t } }
+unsafe impl CastFrom<M9> for dyn Obj { fn cast(t: *mut M9) -> *mut Self { t.cast::<u8>().wrapping_add(64).cast::<M9>() } }
+
+pub const NTY: u64 = 10;
 pub const BAD: u64 = 6;
 
 macro_rules! with_m {
@@ -65,8 +89,8 @@ macro_rules! with_m {
         match $ty {
             0 => { type $T = M0; $body } 1 => { type $T = M1; $body } 2 => { type $T = M2; $body }
             3 => { type $T = M3; $body } 4 => { type $T = M4; $body } 5 => { type $T = M5; $body }
-            6 => { type $T = M6; $body }
-            _ => { type $T = M7; $body }
+            6 => { type $T = M6; $body } 7 => { type $T = M7; $body } 8 => { type $T = M8; $body }
+            _ => { type $T = M9; $body }
         }
     };
 }
